@@ -735,9 +735,22 @@ func isFreshValue(p *Program, v ssa.Value) bool {
 func ruleCloneDocument(r *Run) {
 	clones := discoverClones(r.P, pkgDoc)
 	var sel []cloneFn
+	seen := map[*ssa.Function]bool{}
+	var roots []*ssa.Function
 	for _, c := range clones {
 		if c.Fn.Signature.Recv() != nil && typeIs(c.Fn.Signature.Recv().Type(), pkgDoc, "TemplateEngine") {
 			sel = append(sel, c)
+			seen[c.Fn] = true
+			roots = append(roots, c.Fn)
+		}
+	}
+	// helper clone functions that are not methods of the engine (and the clone() methods of the
+	// per-document registries) are held to the same rules when the engine's clones call them
+	reach := r.P.staticReach(roots...)
+	for _, c := range clones {
+		if !seen[c.Fn] && reach[c.Fn] {
+			sel = append(sel, c)
+			seen[c.Fn] = true
 		}
 	}
 	r.Min("template_clone_functions", len(sel), 17)
